@@ -7,6 +7,6 @@ import (
 )
 
 func TestReplay(t *testing.T) {
-	Setup()
-	vrt.ReplayMain(map[string]func(){"Harness_pair": Harness_pair})
+	SetupGensym()
+	vrt.ReplayMain(map[string]func(){"Harness_pair": Harness_pair, "Harness_gensym": Harness_gensym})
 }
